@@ -98,6 +98,20 @@ pub fn handle(st: &mut State, toks: &[&str]) -> HResult {
                 return None;
             }
             st.bm[li].as_ref()?;
+            if li == ri && *form == "rr" {
+                // `&a op &a`: literally the same object on both sides (an identity shortcut would show here)
+                let a = st.bm[li].as_ref()?;
+                let res = match *op {
+                    "or" => a | a,
+                    "and" => a & a,
+                    "sub" => a - a,
+                    _ => a ^ a,
+                };
+                let k = kinds(a);
+                let out = format!("ok l={} r={} | p={}", elem_hash(a), elem_hash(a), cell_tags(&k, &k, &kinds(&res)));
+                st.bm[di] = Some(res);
+                return Some(out);
+            }
             // the right operand is only ever read: work on a snapshot when both operands are the same slot
             let rsnap;
             let (lref, rref): (&mut RoaringBitmap, &RoaringBitmap) = if li == ri {
